@@ -370,11 +370,25 @@ class GroupBy:
         else:
             return slice(None)
 
+    def _unify_for_positional_mask(self, mask):
+        """
+        Integer positions may repeat or reorder rows, which the per-chunk boolean masks used
+        for chunked keys cannot express, so those masks need contiguous (unified) codes.
+        """
+        if (
+            self.key_is_chunked
+            and mask is not None
+            and not isinstance(mask, slice)
+            and not pd.api.types.is_bool_dtype(mask)
+        ):
+            self._unify_group_key_chunks()
+
     def count_ikey(self, mask=None) -> np.ndarray:
         """
         Count of observations for each group as numpy array containing the ikey or codes.
         Includes empty groups
         """
+        self._unify_for_positional_mask(mask)
         if self.key_is_chunked:
             group_key, first_chunk_in, mask_chunks = (
                 self._resolve_mask_argument_into_chunks(mask)
@@ -824,6 +838,7 @@ class GroupBy:
         applying the function to each chunk, and then combining the results.
         Thus, the function is applied in parallel across both the chunks of group keys and the multiple value arrays.
         """
+        self._unify_for_positional_mask(mask)
         group_key, first_chunk_in, mask_chunks = (
             self._resolve_mask_argument_into_chunks(mask)
         )
